@@ -207,6 +207,9 @@ func ZZ_C08_H3() {
 		cl := ctx.Response.Header.ContentLength()
 		cr := ctx.Response.Header.Peek("Content-Range")
 		zz.Cover("reached-assert", true)
+		if zz.Param("PANICONLY", 0) == 1 {
+			continue // run as part of C03: only "the handler does not panic" is demanded there
+		}
 		rs, re, ok := 0, len(content)-1, true
 		ranged := useRange && h.acceptByteRange
 		if ranged {
